@@ -16,6 +16,11 @@ Proof. repeat split; reflexivity. Qed.
 Lemma names_getnewname_src_ok : names_getnewname_shape_ok = true.
 Proof. reflexivity. Qed.
 
+(* the probing loop is `for i := 0; i < N; i++ { candidate; if free { return candidate } }` directly
+   followed by the error return: the only way out of an exhausted series is the error *)
+Lemma names_getnewname_loop_src_ok : names_getnewname_loop_ok = true.
+Proof. reflexivity. Qed.
+
 Lemma code_checks_on : chk_unmarshal code_checks = true /\ chk_create_file code_checks = true.
 Proof. destruct names_src_ok as (_ & _ & H1 & H2 & _). split; assumption. Qed.
 
@@ -878,4 +883,33 @@ Proof.
   unfold candidates in Hin. destruct Hin as [<-|Hin]; [left; reflexivity|]. right.
   unfold numbered in Hin. apply in_map_iff in Hin as (j & <- & Hj). apply in_seq in Hj.
   exists j. split; [lia|]. rewrite N.add_0_l. split; [reflexivity | apply decimal_spec].
+Qed.
+
+(* ---------- exhaustion of the series fails, a gap is used ---------- *)
+(* JSON path lists / directories / archive records: a record with a path id that has no name yet whose
+   top-level name and all numbered alternatives are there is refused with the state unchanged *)
+Theorem exhausted_no_effect_json decode cfg d m s r0 rest st :
+  overwrite cfg = false -> msg_src decode cfg m = Some s -> s_rel s = r0 :: rest ->
+  map_get (st_map st) (s_id s) = None ->
+  (forall c, In c (candidates r0) -> stat (st_fs st) (join d [c]) <> SNotExist) ->
+  step decode code_checks cfg d m st = (NErr, st).
+Proof.
+  intros Ho Hsrc Hrel Hmap Hex. pose proof (exhausted _ _ _ Hex) as E.
+  assert (HJ : forall t pl, recv_json code_checks cfg d (Some s) t pl st = (NErr, st)).
+  { intros t pl. unfold recv_json. rewrite Hrel.
+    destruct (chk_unmarshal code_checks && negb (forallb valid_name (r0 :: rest))); [reflexivity|].
+    unfold create_dir_or_file. rewrite Ho, Hmap, E. reflexivity. }
+  unfold msg_src in Hsrc. unfold step. destruct m as [raw pl|raw pl].
+  - destruct (v3 cfg); [cbn [orb] in Hsrc; rewrite Hsrc; apply HJ|].
+    destruct (directory cfg); [cbn [orb] in Hsrc; rewrite Hsrc; apply HJ | discriminate Hsrc].
+  - rewrite Hsrc. apply HJ.
+Qed.
+
+(* one gap anywhere in name, name.0, ..., name.(max-1): exactly the first gap is chosen *)
+Theorem gap_used f d nm pre g post : name_len nm <= names_max_len ->
+  candidates nm = pre ++ g :: post -> stat f (join d [g]) = SNotExist ->
+  (forall c, In c pre -> stat f (join d [c]) <> SNotExist) ->
+  get_new_name f d nm = Some g.
+Proof.
+  intros Hl E Hg Hpre. apply fresh_shape. split; [exact Hl|]. exists pre, post. auto.
 Qed.
